@@ -1,5 +1,7 @@
 use crate::engine::Engine;
 
+pub mod c01;
+pub mod c02;
 pub mod c03;
 pub mod c04;
 pub mod c06;
@@ -9,6 +11,7 @@ pub mod c10;
 pub mod c11;
 pub mod c13;
 pub mod c14;
+pub mod c15;
 pub mod c16;
 pub mod c17;
 pub mod c17_cli;
@@ -17,6 +20,8 @@ pub mod c20;
 
 pub fn run(id: &str, e: &Engine) -> bool {
 	match id {
+		"C01" => c01::check(e),
+		"C02" => c02::check(e),
 		"C03" => c03::check(e),
 		"C04" => c04::check(e),
 		"C06" => c06::check(e),
@@ -26,6 +31,7 @@ pub fn run(id: &str, e: &Engine) -> bool {
 		"C11" => c11::check(e),
 		"C13" => c13::check(e),
 		"C14" => c14::check(e),
+		"C15" => c15::check(e),
 		"C16" => c16::check(e),
 		"C17" => c17::check(e),
 		"C19" => c19::check(e),
@@ -35,4 +41,4 @@ pub fn run(id: &str, e: &Engine) -> bool {
 	true
 }
 
-pub const ALL: &[&str] = &["C03", "C04", "C06", "C07", "C09", "C10", "C11", "C13", "C14", "C16", "C17", "C19", "C20"];
+pub const ALL: &[&str] = &["C01", "C02", "C03", "C04", "C06", "C07", "C09", "C10", "C11", "C13", "C14", "C15", "C16", "C17", "C19", "C20"];
